@@ -354,6 +354,7 @@ func regSync() {
 			if p == nil {
 				in.goPanicf("runtime error: invalid memory address or nil pointer dereference")
 			}
+			in.guardCheck(p, true)
 			in.ghost.atomicOp++
 			defer func() { in.ghost.atomicOp-- }()
 			old := *p
@@ -405,6 +406,20 @@ func regSync() {
 			}
 			return false
 		}
+	}
+}
+
+// guardCheck: a cell declared guarded-by a mutex may only be accessed with that mutex held (write mode for
+// writes); an atomic access without the lock is a violation as well (mixed disciplines lose updates).
+func (in *Interp) guardCheck(p *Value, write bool) {
+	mu, ok := in.ghost.guards[p]
+	if !ok {
+		return
+	}
+	ms := in.ghost.mutexes[mu]
+	held := ms != nil && (ms.locked || (!write && ms.readers > 0))
+	if !held {
+		in.X.assert(false, "guarded-access-without-lock")
 	}
 }
 
